@@ -3,6 +3,7 @@ mod engine;
 mod gen;
 mod model;
 mod prng;
+mod realdiff;
 mod props;
 mod run;
 mod scen;
@@ -31,6 +32,12 @@ fn main() {
     if args[0] == "selftest-determinism" {
         let n: u64 = args.get(1).and_then(|s| s.parse().ok()).unwrap_or(300);
         std::process::exit(engine::selftest_determinism(&props, n));
+    }
+    if args[0] == "real-diff" {
+        let n: u64 = args.get(1).and_then(|s| s.parse().ok()).unwrap_or(200);
+        let bin = std::env::var("ZINOMA_REAL_BIN").unwrap_or_else(|_| "/repo/target/debug/zinoma".into());
+        let seed: u64 = std::env::var("VERIF_SEED").ok().and_then(|s| s.parse().ok()).unwrap_or(1);
+        std::process::exit(realdiff::real_diff(n, seed, std::path::Path::new(&bin)));
     }
     if args[0] == "--replay" {
         let f = args.get(1).unwrap_or_else(|| usage());
